@@ -4,7 +4,11 @@ COMMON_NOTE = (
     "Trusted: Coq 8.16.1 kernel + vm_compute; tools/translate.py (regenerates coq/theories/Gen from /repo on every run); "
     "the hand-written procedural model is tied to the code by differential execution of the extracted model "
     "(ExtrOcamlBasic only) against the implementation, which is testing; CPython's str.upper/\\s/\\d tables are "
-    "re-read from the running interpreter. No axioms (Print Assumptions: closed under the global context)."
+    "re-read from the running interpreter. No axioms (Print Assumptions: closed under the global context). "
+    "Streams ask each question through every public entry point and in variant forms (after other uses of the same text or "
+    "of a twin of another country, through an instance, with components omitted, padded with white space), and each "
+    "property's stream is replayed in the opposite order in a fresh process; the bank list of the model is read from the "
+    "JSON files by the translator itself (the library's loader is compared with it)."
 )
 
 CLAIMS = {
